@@ -27,7 +27,7 @@ try:
 except ImportError as _exc:
     raise ImportError("jwt_authenticate requires joserfc: pip install vgi-rpc[oauth]") from _exc
 
-from vgi_rpc.http._unauthorized import AuthFailure, AuthReason
+from vgi_rpc.http._unauthorized import AuthFailure, AuthReason, AuthUnavailableError
 from vgi_rpc.rpc import AuthContext
 
 logger = logging.getLogger(__name__)
@@ -85,7 +85,20 @@ def jwt_authenticate(
     key_set: KeySet | None = None
 
     def _fetch_jwks() -> KeySet:
-        nonlocal resolved_jwks_uri, key_set
+        nonlocal key_set
+        try:
+            new_key_set = _download_jwks()
+        except (httpx2.HTTPError, JoseError, ValueError, LookupError, TypeError) as exc:
+            # The key set could not be obtained, so nothing is known about the
+            # credential. A non-JSON body (a proxy's maintenance page) raises
+            # JSONDecodeError, a ValueError: unwrapped, it would read as a
+            # rejected credential -- a 401, or "try the next authenticator".
+            raise AuthUnavailableError(f"JWKS unavailable ({type(exc).__name__})") from exc
+        key_set = new_key_set
+        return new_key_set
+
+    def _download_jwks() -> KeySet:
+        nonlocal resolved_jwks_uri
         if resolved_jwks_uri is None:
             with httpx2.Client() as client:
                 oidc_resp = client.get(f"{discovery_issuer.rstrip('/')}/.well-known/openid-configuration")
@@ -95,9 +108,7 @@ def jwt_authenticate(
         with httpx2.Client() as client:
             resp = client.get(resolved_jwks_uri)
             resp.raise_for_status()
-            new_key_set = KeySet.import_key_set(resp.json())
-        key_set = new_key_set
-        return new_key_set
+            return KeySet.import_key_set(resp.json())
 
     def _get_key_set(force_refresh: bool = False) -> KeySet:
         nonlocal key_set
